@@ -543,6 +543,72 @@ fn ops(seed: u64, full: bool, sample: u64) {
     }
 }
 
+// ---- stage 3: statement boundaries --------------------------------------------------------
+
+fn gen_one(statements: Vec<Statement>, span: usize) -> (Option<String>, Option<String>, Block) {
+    let block = Block::new(statements, None);
+    (dense(&block, span), readable(&block, span), block)
+}
+
+fn stmts() {
+    let id = |n: &str| Expression::identifier(n);
+    let bin = |o: BinaryOperator, l: Expression, r: Expression| -> Expression { BinaryExpression::new(o, l, r).into() };
+    let un = |u: UnaryOperator, x: Expression| -> Expression { UnaryExpression::new(u, x).into() };
+    let sum = || bin(BinaryOperator::Plus, id("c"), gen::number("1"));
+    // ending expressions: the samples, and trees whose LAST operand the generator wraps in parentheses
+    let mut endings: Vec<(String, Expression)> = samples().into_iter().map(|(n, e)| (n.to_owned(), e)).collect();
+    endings.push(("genparen_right".into(), bin(BinaryOperator::Asterisk, id("a"), sum())));
+    endings.push(("genparen_right_pow".into(), bin(BinaryOperator::Caret, id("a"), sum())));
+    endings.push(("genparen_right_minus".into(), bin(BinaryOperator::Minus, id("a"), sum())));
+    endings.push(("genparen_unary".into(), un(UnaryOperator::Minus, sum())));
+    endings.push(("genparen_not".into(), un(UnaryOperator::Not, bin(BinaryOperator::And, id("a"), id("b")))));
+    endings.push(("genparen_nested".into(), bin(BinaryOperator::Or, id("a"), un(UnaryOperator::Length, bin(BinaryOperator::Concat, id("a"), id("b"))))));
+    endings.push(("explicit_paren_right".into(), bin(BinaryOperator::Asterisk, id("a"), ParentheseExpression::new(sum()).into())));
+    endings.push((
+        "ifexp_genparen".into(),
+        IfExpression::new(id("c"), id("a"), bin(BinaryOperator::Asterisk, id("a"), sum())).into(),
+    ));
+    let paren = |n: &str| Prefix::Parenthese(Box::new(ParentheseExpression::new(Expression::identifier(n))));
+    let seconds: Vec<(&str, Statement)> = vec![
+        ("paren_call", Statement::Call(FunctionCall::from_prefix(paren("g")))),
+        ("paren_field_call", Statement::Call(FunctionCall::from_prefix(FieldExpression::new(paren("g"), "h")))),
+        ("paren_call_call", Statement::Call(FunctionCall::from_prefix(Prefix::Call(Box::new(FunctionCall::from_prefix(paren("g"))))))),
+        ("paren_method", Statement::Call(FunctionCall::from_prefix(paren("g")).with_method("m"))),
+        ("paren_field_assign", AssignStatement::from_variable(FieldExpression::new(paren("g"), "x"), gen::number("1")).into()),
+        ("paren_index_assign", AssignStatement::from_variable(IndexExpression::new(paren("g"), gen::number("1")), gen::number("1")).into()),
+        ("paren_compound", CompoundAssignStatement::new(CompoundOperator::Plus, FieldExpression::new(paren("g"), "x"), gen::number("1")).into()),
+        ("plain_call", Statement::Call(FunctionCall::from_name("g"))),
+    ];
+    let mut idn = 0usize;
+    for (ename, e) in &endings {
+        let firsts: Vec<(&str, u8, Statement)> = vec![
+            ("assign", 1, assign(e.clone())),
+            ("local", 1, VariableAssignment::new(vec!["l".into()], vec![e.clone()]).into()),
+            ("compound", 1, CompoundAssignStatement::new(CompoundOperator::Plus, Variable::new("x"), e.clone()).into()),
+            ("callarg", 1, Statement::Call(FunctionCall::from_name("f").with_argument(e.clone()))),
+            ("repeat", 1, RepeatStatement::new(Block::default(), e.clone()).into()),
+            ("localnovalue", 0, VariableAssignment::new(vec!["l".into()], vec![]).into()),
+            ("while", 0, WhileStatement::new(Block::default(), e.clone()).into()),
+        ];
+        for (fname, expr_end, a) in &firsts {
+            for (sname, b) in &seconds {
+                for span in [1_000_000_000usize, 1] {
+                    let (da, _, _) = gen_one(vec![a.clone()], span);
+                    let (db, _, _) = gen_one(vec![b.clone()], span);
+                    let (dab, rab, block) = gen_one(vec![a.clone(), b.clone()], span);
+                    let h = |t: &Option<String>| t.as_ref().map(|s| hex_or_dash(s.as_bytes())).unwrap_or_else(|| "PANIC".into());
+                    println!(
+                        "st {} {} {} {} {} {} {} {} {} {}:{}:{}",
+                        idn, span, expr_end, h(&da), h(&db), h(&dab), h(&rab),
+                        reparse(&block, &dab), reparse(&block, &rab), ename, fname, sname
+                    );
+                    idn += 1;
+                }
+            }
+        }
+    }
+}
+
 fn main() {
     let args: Vec<String> = std::env::args().skip(1).collect();
     let args = &args[..];
@@ -552,6 +618,7 @@ fn main() {
         "tables" => tables(arg_u64(args, "--seed", 1)),
         "stream" => stream(arg_u64(args, "--seed", 1), arg_u64(args, "--n", 100)),
         "prec" => prec(),
+        "stmts" => stmts(),
         "ops" => ops(
             arg_u64(args, "--seed", 1),
             args.iter().any(|a| a == "--full"),
